@@ -31,7 +31,7 @@ pub fn gen_len(r: &mut Rng, cfg: &GenCfg, max: usize) -> usize {
     l.min(max)
 }
 
-const UTF8_UNITS: &[&str] = &["a", "z", "/", "é", "ß", "€", "\u{FFFD}", "𐍈", "\u{10FFFF}", "\u{7F}", "\u{80}", "\u{7FF}", "\u{800}", "\u{FFFF}", "\u{10000}", " "];
+const UTF8_UNITS: &[&str] = &["a", "z", "/", "é", "ß", "€", "\u{FFFD}", "𐍈", "\u{10FFFF}", "\u{7F}", "\u{80}", "\u{7FF}", "\u{800}", "\u{FFFF}", "\u{10000}", " ", "\u{FEFF}", "\u{200B}", "\u{A0}", "\u{2028}", "e\u{301}", "\u{1}", "\t", "$", "A"];
 
 /// valid UTF-8 of exactly `len` bytes (mixing 1..4-byte scalars, padded with ASCII)
 pub fn utf8_of_len(r: &mut Rng, len: usize, ascii_only: bool) -> Vec<u8> {
@@ -42,6 +42,13 @@ pub fn utf8_of_len(r: &mut Rng, len: usize, ascii_only: bool) -> Vec<u8> {
             out[0] = b'k';
         }
         return out;
+    }
+    // (now and then the string starts or ends with a code point that a lenient implementation might strip: U+FEFF, a space)
+    if len >= 3 && r.chance(1, 12) {
+        out.extend_from_slice(r.pick(&["\u{FEFF}", " ", "\u{200B}"]).as_bytes());
+        if out.len() > len {
+            out.clear();
+        }
     }
     while out.len() < len {
         let u = r.pick(UTF8_UNITS).as_bytes();
